@@ -18,10 +18,10 @@ from .registry import THEOREMS_C11 as THEOREMS  # noqa: E402
 META = {
     "technique": "Lean 4 induction over run-loop steps (model MDOut) + AST-translated _n_timepoints + exhaustive/seeded cadence-lattice correspondence through the real run loop",
     "level_text": "Theorems (all cadence tuples incl. 0/coprime/larger-than-run, all run lengths): every HDF5/XYZ/screen/checkpoint stream of the modelled run loop equals the due-step specification, capacity = number of due rows, labels strictly increasing. The model is tied to the code by regenerating _n_timepoints from its Python AST on every run and by a differential check of the real run loop + HDF5Writer + XYZWriter (stub or real force engine) against the compiled Lean model on a lattice of cadence tuples.",
-    "level_note": "Trusted: Lean kernel; translator for _n_timepoints; harness reading HDF5/XYZ/checkpoint files; the stub force engine replaces only the electronic-structure call (scheduling/writer code under test is the real one). Values stored per step are validated bitwise against a cadence-1 reference run (probe), not proved. TDM / nonadiabatic streams are not modelled (excited-state engines are reached by C10/C17 probes only).",
+    "level_note": "Trusted: Lean kernel; translator for _n_timepoints; harness reading HDF5/XYZ/checkpoint files; the stub force engine replaces only the electronic-structure call (scheduling/writer code under test is the real one). Values stored per step are validated bitwise against a cadence-1 reference run (probe), not proved. The TDM stream is modelled (C11Tdm.lean: rows = steps due for both the data and the TDM cadence, exact iff every multiple of the TDM cadence in the run is a multiple of the data cadence; F10 witness) and tied by the AST translation of its do_tdm test only, not by a differential run (it needs an excited-state engine with save_tdm).",
     "design_ref": "DESIGN.md section 5 C11",
     "modelled": {"OutputConfig.from_dict": True, "HDF5Writer._n_timepoints": "AST-translated", "append_data/append_vectors gates": True,
-                 "XYZWriter": True, "screen/checkpoint cadence": True, "TDM/nonadiabatic streams": False},
+                 "XYZWriter": True, "screen/checkpoint cadence": True, "nonadiabatic stream": "gate AST-translated (GatesTie) + MDState.na_fresh_stream", "TDM stream": "C11Tdm: nested gates + capacity guard, gate AST-translated (gateTdm); no dynamic correspondence of this stream"},
     "assumptions": ["record stored for step s is a function of the state at step s (writers do not mutate the state): validated bitwise against a cadence-1 reference"],
 }
 
@@ -278,6 +278,8 @@ def run(ctx: Ctx):
     leanproj.check_theorems(ctx, MODULE, THEOREMS)
     from .registry import THEOREMS_GATESTIE
     leanproj.check_theorems(ctx, "PyseqmVerif.Properties.GatesTie", THEOREMS_GATESTIE)
+    from .registry import THEOREMS_C11TDM
+    leanproj.check_theorems(ctx, "PyseqmVerif.Properties.C11Tdm", THEOREMS_C11TDM)
     from .registry import THEOREMS_C11B
     leanproj.check_theorems(ctx, "PyseqmVerif.Properties.C10b", THEOREMS_C11B)
     drv = leanproj.Driver()
